@@ -169,6 +169,7 @@ func generate(cfg *config, prop string) (*genOutput, error) {
 	out.loadS = time.Since(t0).Seconds()
 	t1 := time.Now()
 	u := vc.NewUniverse()
+	prog.ExpandAutoRules(u)
 	specText, axioms, err := vc.SpecPrelude(prog, u)
 	if err != nil {
 		return nil, err
@@ -274,7 +275,11 @@ func solveAll(g *genOutput, obls []*vc.Obligation, timeout time.Duration) []oblR
 					continue
 				}
 				rev := g.revealText(o)
-				r := smt.Solve(g.prelude+rev+o.Script, timeout)
+				to := timeout
+				if (o.Kind == "safety" || o.Kind == "pre") && to > 6*time.Second {
+					to = 6 * time.Second
+				}
+				r := smt.Solve(g.prelude+rev+o.Script, to)
 				if r.Status != "unsat" && r.Status != "sat" && o.Relaxed != "" {
 					// no verdict with quantifiers: look for a candidate
 					// counterexample in the quantifier-free relaxation
